@@ -175,11 +175,11 @@ def fail (sig what : String) : Fail := { prop := "C17", sig := "C17:" ++ sig, wh
 
 def MSt.reset (m : MSt) : MSt := { m with owner := [], collector := [] }
 
-/-- all nodes report the same non-empty list -/
+/-- all nodes report the same non-empty list (in any order) -/
 def MSt.uniform (m : MSt) : Option (List String) :=
   match m.nodes with
   | [] => none
-  | n :: t => if !n.peers.isEmpty && t.all (fun x => x.peers == n.peers) then some n.peers else none
+  | n :: t => if !n.peers.isEmpty && t.all (fun x => x.peers.isPerm n.peers) then some n.peers else none
 
 /-- stably configured: uniform list, every node found itself, every listed address is a node -/
 def MSt.stable (m : MSt) : Bool :=
@@ -239,12 +239,12 @@ def shMon (m : MSt) (op : List String) (_ : List (List String)) (obs : Option St
     let f2 := match prs.filter (fun (n, _) => !n.peers.isEmpty) with
       | [] => []
       | (n0, r0) :: t =>
-        -- compare every node with the first one holding the same list (lists are reported sorted)
+        -- compare every node with the first one holding the same list (in any order)
         let rec go (seen : List (MNode × String)) (rest : List (MNode × String)) : List Fail :=
           match rest with
           | [] => []
           | (n, r) :: rest' =>
-            match seen.find? (fun (s, _) => s.peers == n.peers) with
+            match seen.find? (fun (s, _) => s.peers.isPerm n.peers) with
             | some (s, rs) =>
               if rs != r then [fail "nodes-disagree" s!"same list, trace {tid}: node {s.self} says {rs}, node {n.self} says {r}"]
               else go seen rest'
